@@ -759,6 +759,11 @@ func (s *c02State) history(resend func() c02TokenResult) {
 			s.age(target, op.Arg)
 			stateChanged = true
 		case "replay":
+			if s.clockAdvanced {
+				// the earlier request's bytes carry real-time dates: replaying them after a simulated passage of time means nothing
+				x.Class("history:replay-skipped-after-clock-advance")
+				continue
+			}
 			// the very same request again: whatever happened the first time, it must not yield a token now
 			res := resend()
 			x.NonTrivial()
@@ -828,6 +833,7 @@ func (s *c02State) replayAfter(arg int) {
 	}
 	s.record(res1, clientID, s.scope().Name, []*c02Request{r1}, []c02Rendered{rd1})
 	s.fx.advanceStore(d)
+	s.clockAdvanced = true
 	res2, r2, rd2 := send(d)
 	x.NonTrivial()
 	if res2.Token != nil {
